@@ -11,7 +11,8 @@
 From Coq Require Import List Arith Bool ZArith.
 From Verif Require Import lib.Wire c06.Model c06.Spec c06.Proofs_base c06.Proofs_main c06.Proofs_thms
                           c06.Proofs_accept gen.Consts_c06
-                          c06.SpecSw c06.SwModel c06.SwProofs_base c06.SwProofs_quiet.
+                          c06.SpecSw c06.SwModel c06.SwProofs_base c06.SwProofs_quiet
+                          c06.StModel c06.SpecSt c06.StProofs c06.StProofs2.
 Import ListNotations.
 
 (* THE property on traces: the monitor that judges the implementation's traces
@@ -166,6 +167,75 @@ Theorem open_swarm_last_events_truthful : forall cap xs ss p, srun cap sinit xs 
 Proof. exact open_swarm_final_events_l. Qed.
 Print Assumptions open_swarm_last_events_truthful.
 
+(* ---- stream level (StModel.v): the swarm-level LTS plus inbound streams, their share of Swarm.refs, and a
+   reader of the conn table at any moment ----
+   [trun cap tinit ls = Some t]: ls is a schedule of the stream-level LTS: every step of the swarm-level LTS
+   (hence of the emitter LTS), interleaved arbitrarily with, per conn: AcceptStream returning an inbound stream
+   (only while the loop spawned by c.start() runs; takes a ref), the stream goroutine finishing addStream and
+   releasing its ref, the stream handler being called; and ConnsToPeer-style reads of the conn table.
+   Swarm.Close's refs.Wait passes only when the conns' AND the streams' refs are all released.
+   [tobs ls]: what the observer sees, most recent first; [TV v] are the swarm-level observations of SpecSw.v. *)
+
+(* every stream-level schedule contains a swarm-level schedule reaching the same swarm state, and the observer's
+   view restricted to swarm-level labels is that schedule's view (so all theorems above apply to it) *)
+Theorem c06_stream_refines_swarm : forall cap ls t,
+  trun cap tinit ls = Some t -> srun cap sinit (tsched ls) = Some (sw t) /\ tproj (tobs ls) = vobs (tsched ls).
+Proof. intros cap ls t H. split; [exact (trun_srun cap ls t H)|exact (tproj_tobs ls)]. Qed.
+Print Assumptions c06_stream_refines_swarm.
+
+(* THE property on kind-8 traces: the monitor of SpecSt.v (the one run on the implementation's traces: all
+   clauses of SpecSw.v + no stream before Connected returned + truthful listings) accepts every schedule *)
+Theorem c06_stream_monitor_accepts_every_schedule : forall cap ls t,
+  trun cap tinit ls = Some t -> tholds_from (tobs ls) = [].
+Proof. exact tholds_trun. Qed.
+Print Assumptions c06_stream_monitor_accepts_every_schedule.
+
+(* no inbound stream is handed to the stream handler before Connected(c) has RETURNED ... *)
+Theorem no_stream_handled_before_connected : forall cap ls t c post pre,
+  trun cap tinit ls = Some t -> tobs ls = post ++ TVHandle c :: pre -> In (TV (VConnE c)) pre.
+Proof. exact handle_after_connected. Qed.
+Print Assumptions no_stream_handled_before_connected.
+
+(* ... nor even taken from the transport conn *)
+Theorem no_stream_accepted_before_connected : forall cap ls t c post pre,
+  trun cap tinit ls = Some t -> tobs ls = post ++ TVStreamIn c :: pre -> In (TV (VConnE c)) pre.
+Proof. exact streamin_after_connected. Qed.
+Print Assumptions no_stream_accepted_before_connected.
+
+(* once Swarm.Close has returned, no Connected / Disconnected begins or ends and no connectedness event is
+   published, ever *)
+Theorem nothing_delivered_after_swarm_close_returned : forall cap ls t post pre v,
+  trun cap tinit ls = Some t -> tobs ls = post ++ TV VCloseRet :: pre -> In (TV v) post ->
+  match v with VConnB _ | VConnE _ | VDiscB _ | VDiscE _ | VPub _ _ => False | _ => True end.
+Proof.
+  intros cap ls t post pre v H E Hi. pose proof (nothing_after_close_l cap ls t post pre v H E Hi) as D.
+  destruct v; try exact I; discriminate D.
+Qed.
+Print Assumptions nothing_delivered_after_swarm_close_returned.
+
+(* Swarm.close calls connectionEventsEmitter.Close only after refs.Wait: whenever the emitter's Close has been
+   entered, every ref of Swarm.refs - two per admitted conn, one per stream in addStream - has been released *)
+Theorem emitter_closed_only_after_refs_released : forall cap ls t,
+  trun cap tinit ls = Some t -> close_pc (base (sw t)) <> C0 -> refs (sw t) = 0 /\ t_refs t = 0.
+Proof. exact emitter_close_after_refs. Qed.
+Print Assumptions emitter_closed_only_after_refs_released.
+
+(* listings versus notifications, at ANY moment: a conn found in the table was given to addConn, was not
+   refused, and its Disconnected has not begun ... *)
+Theorem listed_conn_truthful : forall cap ls t c post pre,
+  trun cap tinit ls = Some t -> tobs ls = post ++ TVListed c true :: pre ->
+  (exists p lim px, In (TV (VAddCall c p lim px)) pre) /\ ~ In (TV (VAddRet c false)) pre /\ ~ In (TV (VDiscB c)) pre.
+Proof. exact listed_truthful_l. Qed.
+Print Assumptions listed_conn_truthful.
+
+(* ... and a conn whose Connected has begun is in the table unless somebody asked for its Close or Swarm.Close
+   was called *)
+Theorem announced_conn_listed_until_closed : forall cap ls t c post pre,
+  trun cap tinit ls = Some t -> tobs ls = post ++ TVListed c false :: pre -> In (TV (VConnB c)) pre ->
+  In (TV (VCloseReq c)) pre \/ In (TV VCloseCall) pre.
+Proof. exact unlisted_truthful_l. Qed.
+Print Assumptions announced_conn_listed_until_closed.
+
 (* regenerated obligation: the three connectedness values the wire format uses are distinct and the
    zero value of network.Connectedness (what a missing lastConnectednessEvent entry reads as) is NotConnected *)
 Theorem c06_connectedness_consts :
@@ -258,4 +328,64 @@ Proof. vm_compute. discriminate. Qed.
 Example swmonitor_rejects_connected_after_close :
   vholds_from (rev [VAddCall 0 7 false false; VConnB 0; VConnE 0; VAddRet 0 true; VPub 7 Connected; VCloseCall; VTCloseB 0;
                     VTCloseE 0; VDiscB 0; VDiscE 0; VCloseRet; VQuiesce]) <> [].
+Proof. vm_compute. discriminate. Qed.
+
+(* ---- stream level: non-vacuity -------------------------------------------------------------------- *)
+Definition st_prefix : list tlabel :=
+  map TX [XS (SAddCall 0 7 false false); XB (Reg 0 7 false); XB (AddCall 0); XB (AChk 0); XB (AEnq 0); XB (ConnB 0)].
+Definition st_started : list tlabel :=
+  st_prefix ++ map TX [XB (ConnE 0); XB (ALock 0); XB (AFin 0); XB (AddRet 0); XS (SStart 0); XS (SAccept 0)].
+(* a stream arrives, is added and handled; the conn is listed meanwhile; Swarm.Close then runs to the end *)
+Example stream_lifecycle_reachable :
+  exists t, trun 32 tinit (st_started ++ [TStreamIn 0; TListed 0 true; TStreamAdded 0 true; THandle 0] ++
+                           map TX [XS (SAddRet 0 true); XS SCloseCall; XS SNilBegin; XB (Unreg 0); XS SNilEnd; XS (SDBegin 0);
+                                   XS (SDSkip 0)] ++ [TListed 0 false] ++
+                           map TX [XS (STCloseB 0); XS (STCloseE 0); XS (SDSpawn 0); XB (RemCall 0); XB (RChk 0); XB (REnq 0);
+                                   XB (RLock 0); XB (DiscB 0); XB (DiscE 0); XB (RFin 0); XB (RemRet 0); XS (SGDone 0);
+                                   XS (SLoopEnd 0); XS (SLoopDone 0); XS SWaited; XB CloseCall]) = Some t
+            /\ refs (sw t) = 0 /\ t_refs t = 0 /\ close_pc (base (sw t)) <> C0.
+Proof. eexists. split; [vm_compute; reflexivity|]. repeat split. discriminate. Qed.
+(* the model has no step handing out a stream while Connected is still running (c.start() comes after AddConn) *)
+Example no_stream_step_while_connected_runs : trun 32 tinit (st_prefix ++ [TStreamIn 0]) = None.
+Proof. vm_compute. reflexivity. Qed.
+(* Swarm.Close cannot pass refs.Wait while a stream goroutine is still in addStream *)
+Example swarm_close_blocks_on_stream_in_addstream :
+  trun 32 tinit (st_started ++ [TStreamIn 0] ++
+                 map TX [XS SCloseCall; XS SNilBegin; XB (Unreg 0); XS SNilEnd; XS (SDBegin 0); XS (SDSkip 0); XS (STCloseB 0);
+                         XS (STCloseE 0); XS (SDSpawn 0); XB (RemCall 0); XB (RChk 0); XB (REnq 0); XB (RLock 0); XB (DiscB 0);
+                         XB (DiscE 0); XB (RFin 0); XB (RemRet 0); XS (SGDone 0); XS (SLoopEnd 0); XS (SLoopDone 0); XS SWaited]) = None.
+Proof. vm_compute. reflexivity. Qed.
+(* ... and a stream whose addStream comes after doClose nil-ed the stream table is dropped, never handled *)
+Example late_stream_is_dropped :
+  trun 32 tinit (st_started ++ [TStreamIn 0] ++ map TX [XS (SCloseReq 0); XS (SDBegin 0); XB (Unreg 0); XS (STCloseB 0)] ++
+                 [TStreamAdded 0 true]) = None /\
+  trun 32 tinit (st_started ++ [TStreamIn 0] ++ map TX [XS (SCloseReq 0); XS (SDBegin 0); XB (Unreg 0); XS (STCloseB 0)] ++
+                 [TStreamAdded 0 false; THandle 0]) = None.
+Proof. split; vm_compute; reflexivity. Qed.
+(* the monitor rejects: a stream handled / accepted before Connected returned; a Disconnected or an event after
+   Swarm.Close returned; a conn listed after its Disconnected began; an announced, unclosed conn missing from the table *)
+Example stmonitor_rejects_stream_handled_before_connected :
+  tholds_from (rev [TV (VAddCall 0 7 false false); TV (VConnB 0); TVStreamIn 0; TVHandle 0; TV (VConnE 0)]) <> [].
+Proof. vm_compute. discriminate. Qed.
+Example stmonitor_rejects_stream_handled_while_connected_blocked :
+  tholds_from (rev [TV (VAddCall 0 7 false false); TV (VConnB 0); TVHandle 0]) <> [].
+Proof. vm_compute. discriminate. Qed.
+Example stmonitor_accepts_stream_after_connected :
+  tholds_from (rev [TV (VAddCall 0 7 false false); TV (VConnB 0); TV (VConnE 0); TV (VAccept 0); TVStreamIn 0; TVHandle 0]) = [].
+Proof. vm_compute. reflexivity. Qed.
+Example stmonitor_rejects_disconnected_after_close_returned :
+  tholds_from (rev [TV (VAddCall 0 7 false false); TV (VConnB 0); TV (VConnE 0); TV (VAddRet 0 true); TV VCloseCall;
+                    TV (VTCloseB 0); TV (VTCloseE 0); TV VCloseRet; TV (VDiscB 0)]) <> [].
+Proof. vm_compute. discriminate. Qed.
+Example stmonitor_rejects_event_after_close_returned :
+  tholds_from (rev [TV (VAddCall 0 7 false false); TV (VConnB 0); TV (VConnE 0); TV (VAddRet 0 true); TV (VPub 7 Connected);
+                    TV VCloseCall; TV (VTCloseB 0); TV (VTCloseE 0); TV (VDiscB 0); TV (VDiscE 0); TV VCloseRet;
+                    TV (VPub 7 NotConnected)]) <> [].
+Proof. vm_compute. discriminate. Qed.
+Example stmonitor_rejects_listed_after_disconnected :
+  tholds_from (rev [TV (VAddCall 0 7 false false); TV (VConnB 0); TV (VConnE 0); TV (VAddRet 0 true); TV (VCloseReq 0);
+                    TV (VTCloseB 0); TV (VTCloseE 0); TV (VDiscB 0); TVListed 0 true]) <> [].
+Proof. vm_compute. discriminate. Qed.
+Example stmonitor_rejects_announced_conn_not_listed :
+  tholds_from (rev [TV (VAddCall 0 7 false false); TV (VConnB 0); TVListed 0 false]) <> [].
 Proof. vm_compute. discriminate. Qed.
